@@ -890,6 +890,55 @@ func runC06(c *ctx) {
 	}
 	c.stat("twin_streams", int64(twinStreams))
 
+	// DESCENDANT streams: one solver with a FIXED attacker proves X and then a position one to three plies below X (nothing is
+	// forgotten in between: same attacker, same size): entries and moves stored for the second root while it was an inner node
+	// of the first search must not turn into its verdict or its move.
+	descStreams := 0
+	for gi, g := range graphs {
+		if gi >= 6 || len(g.sample) == 0 {
+			continue
+		}
+		for tries := 0; descStreams < 60*c.scale*(gi+1) && tries < 4000*c.scale; tries++ {
+			x := g.sample[c.r.Intn(len(g.sample))]
+			y := x
+			plies := 1 + c.r.Intn(3)
+			ok := true
+			for k := 0; k < plies && ok; k++ {
+				ms := y.AllMoves(nil)
+				q, err := y.Move(ms[c.r.Intn(len(ms))])
+				if err != nil {
+					ok = false
+					break
+				}
+				if over, _ := q.GameOver(); over {
+					ok = false
+					break
+				}
+				y = q
+			}
+			if !ok || y == x {
+				continue
+			}
+			j := &c06job{kind: "dfpnseq", modelOK: descStreams%5 == 0}
+			j.entries = []int{64, 1024, 1 << 16}[c.r.Intn(3)]
+			j.attacker = x.ToMove()
+			if c.r.Intn(4) == 0 {
+				j.attacker = j.attacker.Flip()
+			}
+			j.seq = []*tak.Position{x, y}
+			if c.r.Intn(3) == 0 {
+				j.seq = append(j.seq, x)
+			}
+			for range j.seq {
+				j.seqG = append(j.seqG, g)
+			}
+			j.root = x
+			jobs = append(jobs, j)
+			descStreams++
+		}
+	}
+	c.stat("descendant_streams", int64(descStreams))
+
 	// LONG-LIVED solver: a search, then hundreds of calls that each force the solver to forget its storage (finished
 	// games of another board size with alternating sides to move: nothing is searched, but attacker or size differ from
 	// the previous call every time), then a search of a neighbouring position of the first game with the other attacker.
